@@ -16,9 +16,9 @@ SIG_NESTED = "interzone:gateway-not-a-direct-member-of-its-zone"
 class C24(core.Prop):
     id = "C24"
     drivers = ["route_driver"]
-    ready = False
+    ready = True
     max_workers = 4
-    sizes = {"quick": 350, "thorough": 10000}
+    sizes = {"quick": 250, "thorough": 10000}
     technique = ("property-based testing (Hypothesis): reference route resolver written from the platform description and the "
                  "documented recursive algorithm; validity predicates (C25/C26) for the segments whose local route is not unique")
     rule = ("Hypothesis generates platforms of nested zones, at most 3 levels below the root zone and 40 hosts: leaf zones Full (all pairs "
